@@ -27,11 +27,11 @@ func (c17) ID() string { return "C17" }
 
 func (c17) Rule() string {
 	return "a case is a stream of k (1..5) records written back to back with seqio.NewWriter(buf, FastaFile).WriteSeq (for streams without GenBank records also through the format-detecting writer), then read with seqio.NewAutoScanner from the written text and from its CRLF twin. " +
-		"Record inputs: seqio.Fasta, *seqio.Fasta, gts.New(string info), gts.New(fmt.Stringer info), seqio.GenBank (plain, Fields.Region set to a gts.Segment, obtained by gts.Slice with non-negative and negative indices, or a CONTIG-only record without ORIGIN block: zero residues). " +
+		"Record inputs: seqio.Fasta, *seqio.Fasta, gts.New(string info), gts.New(fmt.Stringer info), seqio.GenBank (plain, Fields.Region set to a gts.Segment, obtained by gts.Slice with non-negative and negative indices, by slicing such a slice again (the region suffix may count in either record but spans the residues written), or a CONTIG-only record without ORIGIN block: zero residues). " +
 		"systematic (every shard enumerates, NextShared): A. every length n in 0..300 (thorough 0..1400) x k in 1..5 x position of the length-n record in the stream, the other records drawn from the boundary lengths {0,1,7,35,69,70,71,139,140,141,210,299}, kinds/descriptions/versions/definitions rotated from fixed pools; B. every residue byte 33..126 except '>' as a homogeneous 71-residue record and in cyclic-alphabet residues; C. description pool (empty, '>', spaces, tabs, leading/trailing blanks, 70 and 200 columns, UTF-8, 'LOCUS', '//') x boundary lengths x the four non-GenBank input kinds x k in {1,3}; D. version pool x definition pool x {plain, region, slice, slice with negative indices} x boundary lengths. " +
 		"seeded (NextOwn): k uniform 1..5, lengths <= 300 (thorough <= 5000) biased to multiples of 70 +-1 and 0, random kinds, descriptions over bytes 32..126 and tab (no line breaks), residues over 33..126 minus '>' or a DNA alphabet. " +
 		"Oracle: WriteSeq returns no error; the bytes written for each record are '>'+desc+LF followed by the residues in lines of exactly 70 columns (last line shorter), each ended by one LF (zero residues: empty line or nothing; exact multiple of 70: an extra blank line is tolerated); reading the LF text and the CRLF twin yields exactly k records, in order, each with the same description and the same residues when looked at after the whole stream was scanned, and Err()==nil; for GenBank inputs desc == Version + [':'(head+1)'-'tail] + ' ' + Definition and residues == the record's residues. " +
-		"Outside the quantifier and never generated: descriptions/versions/definitions containing LF or CR, residues containing '>' or white space, wrap-around slices, slices of slices. " +
+		"Outside the quantifier and never generated: descriptions/versions/definitions containing LF or CR, residues containing '>' or white space, wrap-around slices. " +
 		"CLI layer: gts clear|reverse|complement|select gene|sort -F fasta --no-cache on streams of 1..3 generated GenBank records (lengths on the 70-column boundaries; CONTIG-only records for clear): the text is one FASTA record per input record with description VERSION+' '+DEFINITION and the residues the command implies in the exact layout, and fed back through gts clear -F fasta reads back the same. " +
 		"non-trivial: the stream has >= 2 records or a record longer than one line (n > 70); distinct: canonical case text (kinds, descriptions, lengths, residue generator parameters, writer)."
 }
@@ -44,11 +44,11 @@ func (c17) RequiredBuckets(tier string) []string {
 		"desc:empty", "desc:has-gt", "desc:has-space", "desc:has-tab",
 		"genbank:plain", "genbank:region", "genbank:slice", "genbank:slice-negative-index",
 		"kind:fasta", "kind:fasta-ptr", "kind:basic-string", "kind:basic-stringer",
-		"kind:genbank", "kind:genbank-region", "kind:genbank-slice", "kind:genbank-contig",
+		"kind:genbank", "kind:genbank-region", "kind:genbank-slice", "kind:genbank-contig", "kind:genbank-slice2",
 		"writer:fasta", "writer:auto",
 		"alphabet:single-byte-record", "residues:cyclic-alphabet", "residues:random",
 		"empty-record-not-last", "multiple-of-70-not-last",
-		"cli:fasta clear", "cli:fasta reverse", "cli:fasta complement", "cli:fasta select", "cli:fasta sort", "cli:fasta stream", "cli:fasta len%70=0", "cli:fasta CONTIG-only record",
+		"cli:fasta clear", "cli:fasta reverse", "cli:fasta complement", "cli:fasta select", "cli:fasta sort", "cli:fasta pick", "cli:fasta -o", "cli:fasta cache-on", "cli:fasta stream", "cli:fasta len%70=0", "cli:fasta CONTIG-only record",
 	}
 }
 
@@ -123,6 +123,8 @@ type c17rec struct {
 	post   int  // genbank-slice: residues of the parent after the slice
 	neg    bool // genbank-slice: indices given as negative offsets from the end
 	clen   int  // genbank-contig: length of the CONTIG region (the record holds no residues)
+	pre2   int  // genbank-slice2: residues of the first slice in front of the second one
+	post2  int  // genbank-slice2: residues of the first slice after the second one
 }
 
 func c17gen(mode string, param int64, n int) []byte {
@@ -158,6 +160,10 @@ func (r *c17rec) residues() []byte {
 	if r.kind == "genbank-contig" {
 		return []byte{}
 	}
+	if r.kind == "genbank-slice2" {
+		a := r.pre + r.pre2
+		return c17gen(r.gmode, r.gparam, r.pre+r.pre2+r.n+r.post2+r.post)[a : a+r.n]
+	}
 	if r.kind == "genbank-slice" {
 		return c17gen(r.gmode, r.gparam, r.pre+r.n+r.post)[r.pre : r.pre+r.n]
 	}
@@ -176,8 +182,22 @@ func (r *c17rec) wantDesc() string {
 		return r.ver + model.FastaSuffix(r.head, r.head+r.n) + " " + c17Flat(r.def)
 	case "genbank-slice":
 		return r.ver + model.FastaSuffix(r.pre, r.pre+r.n) + " " + c17Flat(r.def)
+	case "genbank-slice2":
+		// a slice of a slice: the window within the record that was sliced.
+		return r.ver + model.FastaSuffix(r.pre2, r.pre2+r.n) + " " + c17Flat(r.def)
 	}
 	return r.desc
+}
+
+// altDesc is a second acceptable description: for a slice of a slice the
+// statement does not say which record the region suffix counts in; the window
+// within the original record is accepted too. Either way the suffix spans as
+// many residues as the record holds.
+func (r *c17rec) altDesc() string {
+	if r.kind == "genbank-slice2" {
+		return r.ver + model.FastaSuffix(r.pre+r.pre2, r.pre+r.pre2+r.n) + " " + c17Flat(r.def)
+	}
+	return ""
 }
 
 func (r *c17rec) enc() string {
@@ -187,6 +207,8 @@ func (r *c17rec) enc() string {
 		return fmt.Sprintf("{genbank ver=%q def=%q %s}", r.ver, r.def, res)
 	case "genbank-contig":
 		return fmt.Sprintf("{genbank-contig (no ORIGIN block, CONTIG join(ACC17.1:%d..%d)) ver=%q def=%q}", r.head+1, r.head+r.clen, r.ver, r.def)
+	case "genbank-slice2":
+		return fmt.Sprintf("{genbank-slice-of-a-slice ver=%q def=%q parent=%d first=[%d,%d) second=[%d,%d) of the first %s}", r.ver, r.def, r.pre+r.pre2+r.n+r.post2+r.post, r.pre, r.pre+r.pre2+r.n+r.post2, r.pre2, r.pre2+r.n, res)
 	case "genbank-region":
 		return fmt.Sprintf("{genbank-region ver=%q def=%q region=Segment{%d,%d} %s}", r.ver, r.def, r.head, r.head+r.n, res)
 	case "genbank-slice":
@@ -229,6 +251,11 @@ func (r *c17rec) build() gts.Sequence {
 		gb := c17genbank(r.ver, r.def, res)
 		gb.Fields.Region = gts.Segment{r.head, r.head + r.n}
 		return gb
+	case "genbank-slice2":
+		L := r.pre + r.pre2 + r.n + r.post2 + r.post
+		parent := c17genbank(r.ver, r.def, c17gen(r.gmode, r.gparam, L))
+		first := gts.Slice(parent, r.pre, r.pre+r.pre2+r.n+r.post2)
+		return gts.Slice(first, r.pre2, r.pre2+r.n)
 	case "genbank-contig":
 		gb := c17genbank(r.ver, r.def, nil)
 		gb.Origin = seqio.NewOrigin(nil)
@@ -545,7 +572,13 @@ func (m c17) check(c *fw.Ctx, recs []c17rec, writer string) {
 	// layout of the written bytes (this is also the GenBank -> FASTA
 	// description and residue check on the text itself).
 	for i := range recs {
-		if ok, why := model.FastaLayoutOK(wantD[i], wantR[i], pieces[i]); !ok {
+		ok, why := model.FastaLayoutOK(wantD[i], wantR[i], pieces[i])
+		if alt := recs[i].altDesc(); !ok && why == "description-line" && alt != "" {
+			if ok2, _ := model.FastaLayoutOK(alt, wantR[i], pieces[i]); ok2 {
+				ok, wantD[i] = true, alt
+			}
+		}
+		if !ok {
 			cls := "layout:" + why
 			if recs[i].isGB() && why == "description-line" {
 				cls = "genbank-to-fasta:description"
@@ -767,7 +800,7 @@ func (m c17) Run(c *fw.Ctx) {
 	// D. GenBank -> FASTA: version x definition x region mode x boundary lengths.
 	for vi, ver := range c17VerPool {
 		for fi, def := range c17DefPool {
-			for mi, mode := range []string{"plain", "region", "slice", "slice-neg", "slice-prefix", "slice-suffix", "contig"} {
+			for mi, mode := range []string{"plain", "region", "slice", "slice-neg", "slice-prefix", "slice-suffix", "contig", "slice-of-slice"} {
 				for ni, n := range []int{0, 1, 69, 70, 71, 140} {
 					if !c.NextShared() {
 						continue
@@ -786,6 +819,8 @@ func (m c17) Run(c *fw.Ctx) {
 						r.kind, r.pre, r.post = "genbank-slice", 0, 1+(fi*11+ni)%90
 					case "slice-suffix":
 						r.kind, r.pre, r.post = "genbank-slice", 1+(vi*13+ni*7)%90, 0
+					case "slice-of-slice":
+						r.kind, r.pre, r.post, r.pre2, r.post2 = "genbank-slice2", 1+(vi*13+ni*7)%40, (fi*11+ni)%40, (vi+fi+ni)%9, (vi*3+ni)%7
 					case "contig":
 						// a record without residues whose CONTIG line spans n+1 bases.
 						r.kind, r.head, r.clen, r.n = "genbank-contig", []int{0, 1, 99, 12345}[(vi+fi+ni)%4], n+1, 0
